@@ -569,10 +569,15 @@ impl<T: Transport, E: UtpEnvironment> Dispatcher<T, E> {
                 self.verif_tab("connect_dropped", addr, 0.into());
             }
             ControlRequest::Shutdown(key) => {
-                trace!(?key, "removing stream");
-                self.streams.remove(&key);
-                #[cfg(librqbit_utp_verif)]
-                self.verif_tab("stream_remove", key.0, key.1);
+                // The notification may be stale: the dead stream's entry may already have been
+                // cleaned up (on_recv noticed its receiver was gone) and the key re-used by a new
+                // stream. Only remove an entry whose stream has dropped its receiver.
+                if self.streams.get(&key).is_some_and(|tx| tx.is_closed()) {
+                    trace!(?key, "removing stream");
+                    self.streams.remove(&key);
+                    #[cfg(librqbit_utp_verif)]
+                    self.verif_tab("stream_remove", key.0, key.1);
+                }
             }
         }
     }
